@@ -187,7 +187,8 @@ class Rule(MethodWIGM):
                 #
                 low_vote = min(c.vote for c in C.hopeful())
                 low_candidates = [c for c in C.hopeful() if c.vote == low_vote]
-                if low_vote == V0 and self.defeat_batch == 'zero':
+                if low_vote == V0 and self.defeat_batch == 'zero' and \
+                   len(C.hopeful()) - len(low_candidates) >= E.seatsLeftToFill():
                     for c in low_candidates:
                         c.defeat(msg='Defeat batch(zero)')
                 else:
